@@ -199,8 +199,9 @@ var malformedPieces = []struct{ Text, Why string }{
 	{`"unterminated phrase`, "unmatched double quote"},
 }
 
-// forEachSequence enumerates all sequences of 1..maxLen indices below n, in length-then-
-// lexicographic order, by index number (so that an enumeration can be sharded).
+// Sequences of 1..maxLen indices below n are enumerated in length-then-lexicographic order and
+// addressed by their number, so that an enumeration can be sharded: sequenceCount is how many
+// there are.
 func sequenceCount(n, maxLen int) int {
 	total, p := 0, 1
 	for l := 1; l <= maxLen; l++ {
